@@ -78,7 +78,9 @@ FindAmpSemi(s, p, n) == IF p >= n \/ At(s, p) = AMP \/ At(s, p) = SEMI THEN Min2
 PredefEnt(s, lo, hi) == LET x == Entity(s, lo, hi) IN IF x < 0 THEN <<>> ELSE <<x>>
 \* the custom resolver used by the conformance harness: predefined entities plus  a -> "A;&"  (a replacement that looks like markup)
 CustomEnt(s, lo, hi) == IF Slice(s, lo, hi) = <<97>> THEN <<65, 59, 38>> ELSE PredefEnt(s, lo, hi)
-EntOf(ent, s, lo, hi) == IF ent = "custom" THEN CustomEnt(s, lo, hi) ELSE PredefEnt(s, lo, hi)
+\* a catch-all resolver: every name (it is never asked about numeric references) is replaced by "?"
+LenientEnt(s, lo, hi) == <<63>>
+EntOf(ent, s, lo, hi) == IF ent = "custom" THEN CustomEnt(s, lo, hi) ELSE IF ent = "lenient" THEN LenientEnt(s, lo, hi) ELSE PredefEnt(s, lo, hi)
 RECURSIVE UnescFromE(_, _, _)
 UnescFromE(s, p, ent) ==
     LET n == Len(s)
@@ -97,6 +99,7 @@ UnescFromE(s, p, ent) ==
 UnescFrom(s, p) == UnescFromE(s, p, "predef")
 Unesc(s) == UnescFrom(s, 0)
 UnescCustom(s) == UnescFromE(s, 0, "custom")
+UnescLenient(s) == UnescFromE(s, 0, "lenient")
 
 HasAmp(s) == \E i \in 1..Len(s) : s[i] = AMP
 
